@@ -118,7 +118,9 @@ def avail (_ : Inst) (s : State) (j m : Nat) : Bool :=
 
 /-- `no_op_mask` of `get_action_mask` -/
 def noOpMask (i : Inst) (s : State) : Bool :=
-  if i.maskNoOps then s.done else (anyUpTo i.J s.inProc && !s.done) || s.done
+  if i.maskNoOps then s.done
+  else (anyUpTo i.J s.inProc && !s.done) ||
+       ((if i.jssp then Params.jsspNoOpKeepsDone else Params.fjspNoOpKeepsDone) && s.done)   -- `… | td["done"]`
 
 /-- number of actions: `1 + J·M` (FJSP) or `1 + J` (JSSP) -/
 def nAct (i : Inst) : Nat := if i.jssp then 1 + i.J else 1 + i.J * i.M
@@ -191,7 +193,9 @@ def advance (i : Inst) (s : State) : State :=
 /-- second half of `_transit_to_next_time`, applied by the code to EVERY row of the batch:
 release jobs whose current operation has finished, advance `next_op`, recompute `job_done`, `done`. -/
 def release (i : Inst) (s : State) : State :=
-  let opFin : Nat → Bool := fun j => s.inProc j && Params.fjspReleaseCmp.eval (s.finish (s.nextOp j)) s.time
+  let opFin : Nat → Bool := fun j =>
+    (if Params.fjspReleaseGuardsInProcess then s.inProc j else true) &&       -- `td["job_in_process"] &`
+    Params.fjspReleaseCmp.eval (s.finish (s.nextOp j)) s.time
   let jobFin : Nat → Bool := fun j => opFin j && Params.fjspJobFinCmp.evalNat (s.nextOp j) (i.endOp j)
   let jobDone' : Nat → Bool := fun j => s.jobDone j || jobFin j
   { s with
@@ -255,6 +259,17 @@ def reward (i : Inst) (s : State) : Int :=
   match (if Params.fjspRewardIsMax then maxOver i.N keep s.finish else minOver i.N keep s.finish) with
   | some x => -x
   | none => 0
+
+/-! ### `op_is_ready` (fjsp/utils.py), recomputed by `_get_features` at reset and after every step -/
+
+/-- row `o` of `ops_adj[..., 0] @ finish_times`: the completion time of the job predecessor, 0 for the first
+operation of a job and for padded columns (the predecessor matrix is masked by `ops_sequence_order > 0`) -/
+def predFinish (i : Inst) (s : State) (o : Nat) : Int :=
+  if anyUpTo i.J (fun j => decide (i.startOp j < o) && decide (o ≤ i.endOp j)) then s.finish (o - 1) else 0
+
+/-- `is_ready[o] = (pred_finish <= time) & ~ma_assignment[:, o].sum().bool()` -/
+def isReady (i : Inst) (s : State) (o : Nat) : Bool :=
+  decide (predFinish i s o ≤ s.time) && !anyUpTo i.M (fun m => s.assign m o)
 
 /-! ### The batched `_step` -/
 
